@@ -2455,6 +2455,34 @@ theorem absGetRoster_iff (ids : List Nat) (ro : Nat → Nat) (a : Abs) (r : Nat)
   · rintro ⟨k, hk, ⟨c, hc⟩, hr⟩
     exact ⟨k, hk, by simp [hc, hr]⟩
 
+/-- **a tree that is present is never replaced by a peer's tree** — `setIfMissing` leaves the whole per-id state alone
+(tree, scheduled removal, routines) and says so; this is the step both peer paths store with, so two answers handled at
+the same time cannot replace each other's tree (before /repo 6a4418f the test and the `Set` were two steps: probe
+`notes/probes/onet_c06_sendtree_race_probe_test.go.txt`, 2843 replacements in 3000 rounds) -/
+theorem setIfMissing_never_replaces (s : St1) (c0 c : Nat) (b : Bool) (h : s.slot = .present c0) :
+    setIfMissing1 s c b = (s, false) := by
+  simp [setIfMissing1, h]
+
+/-- it is `Set` or nothing, and the flag says which; with `onlyRequested` it stores only into a requested slot -/
+theorem setIfMissing_is_set_or_nothing (s : St1) (c : Nat) (b : Bool) :
+    (setIfMissing1 s c b = (s, false) ∧ (s.slot = .absent → b = true) ∧ s.slot ≠ .requested) ∨
+    (setIfMissing1 s c b = (step1 s (.set c), true) ∧ (b = true → s.slot = .requested) ∧ ∀ c0, s.slot ≠ .present c0) := by
+  unfold setIfMissing1
+  cases hs : s.slot with
+  | present c0 => left; simp
+  | requested => right; simp
+  | absent =>
+    cases b with
+    | true => left; simp
+    | false => right; simp
+
+/-- two answers one after the other, in either order: the second changes nothing (what the race needed two steps for) -/
+theorem second_answer_changes_nothing (s : St1) (c c' : Nat) (b b' : Bool) (h : (setIfMissing1 s c b).2 = true) :
+    setIfMissing1 (setIfMissing1 s c b).1 c' b' = ((setIfMissing1 s c b).1, false) := by
+  rcases setIfMissing_is_set_or_nothing s c b with ⟨e, _, _⟩ | ⟨e, _, _⟩
+  · rw [e] at h; simp at h
+  · rw [e]; exact setIfMissing_never_replaces _ c c' b' (by simp [step1])
+
 end Store
 
 /-! ### the code regions the model stands for
